@@ -484,4 +484,4 @@ def classify(x) -> Blade:
             if rad2 == 0:
                 return Tangent[g](direction=direction, location=down(location))
             else:
-                return Round[g](direction=direction, location=down(location), radius=_sqrt(float(rad2)/float(y*y)))
+                return Round[g](direction=direction, location=down(location), radius=_sqrt(rad2[()]/(y*y)[()]))
